@@ -68,8 +68,9 @@ type Op struct {
 	Proof    *Proof  `json:"proof,omitempty"`
 	Signers  []Sg    `json:"signers,omitempty"`
 	SgRaw    *string `json:"signers_raw,omitempty"`
-	Extra    bool    `json:"extra,omitempty"` // append the optional per-key controller field
-	Sig      []int   `json:"sig"`             // address tokens of the transaction's signers
+	Extra    bool    `json:"extra,omitempty"`  // append the optional per-key controller field
+	Sig      []int   `json:"sig"`              // address tokens of the transaction's signers
+	Legacy   bool    `json:"legacy,omitempty"` // run below the new-ONT-ID height (old code path)
 }
 
 type History struct {
@@ -294,6 +295,18 @@ func (w *world) encode(o *Op) encoded {
 	case "setAuthKey", "removeAuthKey":
 		utils.EncodeVarUint(sink, o.KIdx)
 		utils.EncodeVarUint(sink, o.Idx)
+	case "addService", "updateService":
+		sink.WriteVarBytes([]byte(fmt.Sprintf("svc-%d", o.Path)))
+		sink.WriteVarBytes([]byte("type"))
+		sink.WriteVarBytes([]byte(fmt.Sprintf("https://endpoint/%d", o.KIdx)))
+		utils.EncodeVarUint(sink, o.Idx)
+	case "removeService":
+		sink.WriteVarBytes([]byte(fmt.Sprintf("svc-%d", o.Path)))
+		utils.EncodeVarUint(sink, o.Idx)
+	case "addContext", "removeContext":
+		utils.EncodeVarUint(sink, 1)
+		sink.WriteVarBytes([]byte(fmt.Sprintf("https://context/%d", o.Path)))
+		utils.EncodeVarUint(sink, o.Idx)
 	default:
 		panic("c45: unknown method " + o.M)
 	}
@@ -469,6 +482,11 @@ var allMethods = []string{
 	"setAuthKey", "setAuthKeyByRecovery", "setAuthKeyByController",
 	"removeAuthKey", "removeAuthKeyByRecovery", "removeAuthKeyByController",
 }
+
+// sideMethods change parts of an identity the model does not keep (services, contexts); they are
+// executed and judged by the oracle only (accepted => a live authentication key of the identity
+// witnessed, nothing the model keeps changed) and are not part of the Coq case.
+var sideMethods = map[string]bool{"addService": true, "updateService": true, "removeService": true, "addContext": true, "removeContext": true}
 
 // coqOp prints the operation as the model sees it, derived from the encoded bytes where the
 // model's view depends on how the bytes parse (groups, signer lists, the proof tail).
